@@ -127,7 +127,7 @@ class Task:
     __slots__ = ("sched", "tid", "proc", "name", "role", "baton", "state", "pred",
                  "deadline", "timed_out", "killed", "ident", "daemon", "what",
                  "unwound", "is_py_thread", "opsig", "nops", "sigmask", "exc",
-                 "line_gap", "kills_seen", "api", "wobj", "prio", "_starved")
+                 "line_gap", "kills_seen", "api", "wobj", "prio", "_starved", "born_step")
 
     def __init__(self, sched, proc, name):
         self.sched = sched
@@ -158,6 +158,7 @@ class Task:
         self.wobj = None
         self.prio = 0.0
         self._starved = 0
+        self.born_step = sched.steps
 
     def __repr__(self):
         return f"<T{self.tid} {self.role} p{self.proc.pid} {self.state} {self.what}>"
@@ -446,7 +447,7 @@ class Sched:
                 continue
             fr = frames.get(t.ident)
             w = t.wobj
-            out.append(dict(tid=t.tid, role=t.role, pid=t.proc.pid, state=t.state,
+            out.append(dict(tid=t.tid, role=t.role, pid=t.proc.pid, state=t.state, born_step=t.born_step,
                             what=t.what, alive=t.proc.alive, api=t.api,
                             waits_for=(dict(sem=w.name, last_acquirer=w.last_acq,
                                             acquirer_alive=(self.kernel.procs[w.last_acq].alive
